@@ -157,6 +157,9 @@ def tlc(family, module, cfg, *, workers=None, timeout=600, simulate=None, depth=
         meta = os.path.join(wd, "meta")
         cmd = ["timeout", str(int(timeout)), "java", "-XX:+UseParallelGC"]
         cmd += ["-Xmx%s" % (heap or "8g"), "-Xss64m"]
+        jtmp = os.path.join(wd, "jtmp")       # TLC leaves tlc-<n> directories in java.io.tmpdir
+        os.makedirs(jtmp, exist_ok=True)
+        cmd += ["-Djava.io.tmpdir=" + jtmp]
         if dfs:
             cmd += ["-Dtlc2.tool.queue.IStateQueue=StateDeque"]
         cmd += ["-cp", "/opt/veriftools/tla/tla2tools.jar:/opt/veriftools/tla/CommunityModules-deps.jar",
